@@ -29,7 +29,7 @@ BaseCfg == [ctl |-> "DistRatio", newton |-> "Simplified", pen |-> "DualNorm",
             limit |-> NoLimit, deadline |-> NoDeadline,
             lambInit |-> 1, lambMin |-> 0, lambMax |-> MaxVal, rho0 |-> 1, zero |-> 0,
             collectPath |-> TRUE, ncb |-> 1, display |-> "never", debug |-> FALSE, rcond |-> FALSE,
-            m0 |-> FALSE, derivCheck |-> FALSE, algKey |-> 1, twin |-> "none", start |-> 0, wellposed |-> FALSE]
+            m0 |-> FALSE, derivCheck |-> FALSE, algKey |-> 1, twin |-> "none", start |-> 0, wellposed |-> FALSE, startUndef |-> FALSE, validate |-> TRUE]
 
 Ctls == {"Exact", "Fixed", "ResRatio", "DistRatio"}
 Pens == {"Constant", "DualNorm", "DualEquil", "Pareto", "ObjFilter", "LagFilter"}
